@@ -360,6 +360,7 @@ def _worker_chunk(chunk):
                 res.inconclusive += 1
                 continue
             v = mod.judge(spec, events, death)
+            generic_monitors(v, events)
             if v.skipped:
                 res.skipped += 1
             else:
@@ -427,6 +428,15 @@ def explore(modname, specs, bindirs, chunk=100, opts=None, nproc=None):
         for r in pool.imap_unordered(_worker_chunk, chunks(specs, chunk)):
             total.merge(r)
     return total
+
+
+def generic_monitors(v, events):
+    """monitors that run in every check, whatever it judges: the driver cross-checks the getter families on each read
+    (by name with index / by name / by option must give one answer) and reports a disagreement as an event"""
+    for e in events or ():
+        if e.get('ev') == 'api-disagree':
+            v.bad('getter-families-disagree:%s' % e.get('what'), '%s disagrees with the indexed by-name getter on the same option (index %s)' % (e.get('what'), e.get('idx')))
+            break
 
 
 def coverage_pass(prop):
@@ -590,6 +600,7 @@ def replay(modname, path, bindirs):
     out = run_batch(bindirs[variant], [(0, body)], leak=getattr(mod, 'LEAKCHECK', False), cwd=opts.get('cwd'), env_extra=opts.get('env'))
     events, death = out[0]
     v = mod.judge(spec, events, death)
+    generic_monitors(v, events)
     print('replay of %s: key=%s' % (path, rp['key']))
     print('script:\n' + body)
     for e in events:
